@@ -496,21 +496,7 @@ Proof.
   specialize (IH r). lia.
 Qed.
 
-(* ---- int(b, 16) on at most two bytes, as an int (Model.int16_str is str(int(b, 16))) *)
-Definition int16_z (b : string) : option Z :=
-  match Model.rstrip_chars is_bspace (Model.lstrip_chars is_bspace b) with
-  | String d EmptyString => option_map Z.of_nat (hexval d)
-  | String s (String d EmptyString) =>
-      match hexval d with
-      | None => None
-      | Some y =>
-          if Ascii.eqb s "+"%char then Some (Z.of_nat y)
-          else if Ascii.eqb s "-"%char then Some (- Z.of_nat y)%Z
-          else match hexval s with Some x => Some (Z.of_nat (16 * x + y)) | None => None end
-      end
-  | _ => None
-  end.
-
+(* ---- int(b, 16) on at most two bytes: Model.int16_z is the int, Model.int16_str is str() of it *)
 Lemma hexval_lt c x : hexval c = Some x -> x < 16.
 Proof.
   assert (A : forall c, (match hexval c with Some x => (x <? 16)%nat | None => true end) = true).
@@ -590,49 +576,74 @@ Qed.
 Lemma fold_scan_err idx descs : fold_left (scan_desc idx) descs AErr = AErr.
 Proof. induction descs as [|d r IH]; [reflexivity|exact IH]. Qed.
 
-(* the service loop, for any body that does what the source's body does on one service *)
-Lemma svc_loop idx body :
-  (forall d s, body [d] (enc_svc s) = if String.eqb (fst s) idx then BrkS [PStr (snd s)] else NextS [d]) ->
-  forall svcs d,
-    pyfor2 (map enc_svc svcs) [d] body
-    = match assoc idx svcs with Some l => BrkS [PStr l] | None => NextS [d] end.
+(* a string of ASCII decimal digits is ASCII *)
+Lemma dec_go_ascii : forall s acc v, dec_go acc s = Some v -> Py2.all_ascii s = true.
 Proof.
-  intros Hb. induction svcs as [|[i l] r IH]; intros d; [reflexivity|].
-  cbn [map pyfor2 assoc]. rewrite Hb. cbn [fst snd]. rewrite (String.eqb_sym idx i).
-  destruct (String.eqb i idx); [reflexivity|apply IH].
+  induction s as [|c r IH]; intros acc v H; [reflexivity|]. cbn [dec_go] in H.
+  destruct (is_dec_digit c) eqn:Ec; [|discriminate]. cbn [Py2.all_ascii all_chars]. fold (Py2.all_ascii r).
+  rewrite (IH _ _ H), andb_true_r. unfold is_dec_digit in Ec. unfold Py2.is_ascii_char.
+  apply andb_true_iff in Ec. destruct Ec as [_ E]. apply Nat.leb_le in E. apply Nat.ltb_lt. lia.
+Qed.
+
+Lemma dec_value_ascii s v : dec_value s = Some v -> Py2.all_ascii s = true.
+Proof. unfold dec_value. destruct (is_empty s); [discriminate|]. apply dec_go_ascii. Qed.
+
+(* the service loop, for any body that does what the source's body does on one service; the state is
+   [_index; destination] (the loop variable _index of the source is assigned in the body) *)
+Lemma svc_loop z body :
+  (forall ix d s, body [ix; d] (enc_svc s)
+                  = if idx_matches z (fst s) then BrkS [PStr (fst s); PStr (snd s)] else NextS [PStr (fst s); d]) ->
+  forall svcs ix d, exists ix',
+    pyfor2 (map enc_svc svcs) [ix; d] body
+    = match find_svc z svcs with Some l => BrkS [ix'; PStr l] | None => NextS [ix'; d] end.
+Proof.
+  intros Hb. induction svcs as [|[i l] r IH]; intros ix d; [exists ix; reflexivity|].
+  cbn [map pyfor2 find_svc]. rewrite Hb. cbn [fst snd].
+  destruct (idx_matches z i); [exists (PStr i); reflexivity|apply IH].
 Qed.
 
 (* the descriptor loop *)
-Lemma desc_loop idx body :
-  (forall d desc, body [d] (enc_desc desc)
-                  = match desc with
-                    | None => ExcS "KeyError" [d]
-                    | Some svcs => NextS [match assoc idx svcs with Some l => PStr l | None => d end]
-                    end) ->
-  forall descs acc,
-    match fold_left (scan_desc idx) descs (AOk acc) with
-    | AOk r => pyfor2 (map enc_desc descs) [enc_dest acc] body = NextS [enc_dest r]
-    | AErr => exists d, pyfor2 (map enc_desc descs) [enc_dest acc] body = ExcS "KeyError" [d]
+Lemma desc_loop z body :
+  (forall ix d desc, exists ix',
+     body [ix; d] (enc_desc desc)
+     = match desc with
+       | None => ExcS "KeyError" [ix; d]
+       | Some svcs => NextS [ix'; match find_svc z svcs with Some l => PStr l | None => d end]
+       end) ->
+  forall descs ix acc,
+    match fold_left (scan_desc z) descs (AOk acc) with
+    | AOk r => exists ix', pyfor2 (map enc_desc descs) [ix; enc_dest acc] body = NextS [ix'; enc_dest r]
+    | AErr => exists ix' d, pyfor2 (map enc_desc descs) [ix; enc_dest acc] body = ExcS "KeyError" [ix'; d]
     end.
 Proof.
-  intros Hb. induction descs as [|[svcs|] r IH]; intros acc.
-  - reflexivity.
-  - cbn [map pyfor2 fold_left scan_desc]. rewrite Hb.
-    specialize (IH (match assoc idx svcs with Some l => Some l | None => acc end)).
-    replace (enc_dest (match assoc idx svcs with Some l => Some l | None => acc end))
-      with (match assoc idx svcs with Some l => PStr l | None => enc_dest acc end) in IH
-      by (destruct (assoc idx svcs); reflexivity).
+  intros Hb. induction descs as [|[svcs|] r IH]; intros ix acc.
+  - exists ix. reflexivity.
+  - cbn [map pyfor2 fold_left scan_desc]. destruct (Hb ix (enc_dest acc) (Some svcs)) as [ix1 ->].
+    specialize (IH ix1 (match find_svc z svcs with Some l => Some l | None => acc end)).
+    replace (enc_dest (match find_svc z svcs with Some l => Some l | None => acc end))
+      with (match find_svc z svcs with Some l => PStr l | None => enc_dest acc end) in IH
+      by (destruct (find_svc z svcs); reflexivity).
     exact IH.
-  - cbn [map pyfor2 fold_left scan_desc]. rewrite Hb, fold_scan_err. exists (enc_dest acc). reflexivity.
+  - cbn [map pyfor2 fold_left scan_desc]. destruct (Hb ix (enc_dest acc) None) as [ix1 ->]. rewrite fold_scan_err.
+    exists ix, (enc_dest acc). reflexivity.
 Qed.
 
 Section Artifact.
   Variable b64decode : pyval -> pyval.              (* base64.b64decode; bytes = the str of the same bytes *)
   Variable int_base : pyval -> pyval -> pyval.      (* int(b, base) *)
+  Variable int_dec : pyval -> pyval.                (* int(s) *)
+  Variable str_isascii : pyval -> pyval.            (* s.isascii() *)
+  Variable str_isdigit : pyval -> pyval.            (* s.isdigit() *)
   Hypothesis b64decode_ok : forall s d, decode_str s = Some d -> b64decode (PStr s) = PStr d.
   Hypothesis b64decode_fail : forall s, decode_str s = None -> exists n, b64decode (PStr s) = PExc n.
   Hypothesis int_base_spec : forall b, String.length b <= 2 ->
     int_base (PStr b) (PInt 16) = match int16_z b with Some z => PInt z | None => PExc "ValueError" end.
+  (* str = its UTF-8 bytes: isascii() = no byte >= 128; on an ASCII str isdigit() = non-empty, all of '0'..'9';
+     int() of such a str is its decimal value (leading zeros allowed) *)
+  Hypothesis isascii_spec : forall s, str_isascii (PStr s) = PBool (Py2.all_ascii s).
+  Hypothesis isdigit_spec : forall s, Py2.all_ascii s = true ->
+    str_isdigit (PStr s) = PBool (match dec_value s with Some _ => true | None => false end).
+  Hypothesis int_dec_spec : forall s v, dec_value s = Some v -> int_dec (PStr s) = PInt (Z.of_nat v).
 
   (* [sm_ok]: the first key of self.sourceid is not the reserved "__class__" (keys are 20-byte digests);
      decoded artifact bytes < 128: the embedding refuses to slice a str with a byte >= 128 (index = code point) *)
@@ -641,10 +652,22 @@ Section Artifact.
   Definition art_ascii (art : string) : bool :=
     match decode_str art with Some a => Py2.all_ascii a | None => true end.
 
+  (* _index.isascii() and _index.isdigit() and int(_index) == endpoint_index *)
+  Lemma index_test z i :
+    p2_branch (p2_and (str_isascii (PStr i)) (p2_and (str_isdigit (PStr i)) (p2_eq (py_bind (PStr i) (fun a => int_dec a)) (PInt z))))
+    = if idx_matches z i then BTrue else BFalse.
+  Proof.
+    rewrite isascii_spec. unfold idx_matches. destruct (Py2.all_ascii i) eqn:Ea.
+    - rewrite isdigit_spec by exact Ea. destruct (dec_value i) as [v|] eqn:Ev.
+      + cbn [py_bind]. rewrite (int_dec_spec _ _ Ev), p2_eq_int. destruct (Z.of_nat v =? z)%Z; reflexivity.
+      + reflexivity.
+    - destruct (dec_value i) as [v|] eqn:Ev; [|reflexivity]. rewrite (dec_value_ascii _ _ Ev) in Ea. discriminate.
+  Qed.
+
   Theorem src2_artifact2destination_is_model : forall sm art dname,
     sm_ok sm = true -> art_ascii art = true ->
     ares_is (artifact2destination sm art)
-            (src2_artifact2destination b64decode int_base (enc_self dname sm) (PStr art) (PStr dname)).
+            (src2_artifact2destination b64decode int_base int_dec str_isascii str_isdigit (enc_self dname sm) (PStr art) (PStr dname)).
   Proof.
     intros sm art dname Hsm Hasc. unfold src2_artifact2destination, artifact2destination, art_ascii in *.
     cbv beta zeta. cbn [py_bind].
@@ -655,9 +678,9 @@ Section Artifact.
     change (Z.to_nat 2) with 2. change (Z.to_nat 4) with 4. change (Z.to_nat 24) with 24. cbn [py_bind].
     rewrite p2_ne_str. change (sb [0%N; 4%N]) with ARTIFACT_TYPECODE. rewrite p2_branch_bool.
     destruct (negb (String.eqb (take 2 a) ARTIFACT_TYPECODE)); [exists "ValueError"; reflexivity|].
-    rewrite int_base_spec by apply (length_slice_le 2 4). rewrite int16_str_z.
+    rewrite int_base_spec by apply (length_slice_le 2 4).
     destruct (int16_z (slice 2 4 a)) as [z|]; [|exists "ValueError"; reflexivity].
-    cbn [option_map p2_str s1 py_bind]. set (idx := dec_of_Z z).
+    cbn [py_bind].
     change (p2_attr (enc_self dname sm) "sourceid") with (PObj (enc_sourceid dname sm)).
     assert (Hobj : is_obj (enc_sourceid dname sm) = false).
     { destruct sm as [|[k e] r]; [reflexivity|]. cbn [sm_ok] in Hsm. cbn [enc_sourceid map fst is_obj].
@@ -669,38 +692,48 @@ Section Artifact.
     cbn [p2_fconcat p2_str s1 py_bind]. change ("_descriptor" ++ "") with "_descriptor".
     rewrite p2_getitem_dict by (cbn [is_obj]; apply descriptor_key_ok).
     cbn [assoc_py]. rewrite String.eqb_refl. rewrite p2_iter_check_list. cbn [py_bind py_iter2].
-    match goal with |- context [pyfor2 (map enc_desc descs) [PNone] ?body] =>
-      pose proof (desc_loop idx body) as Hloop end.
+    match goal with |- context [pyfor2 (map enc_desc descs) [PErr; PNone] ?body] =>
+      pose proof (desc_loop z body) as Hloop end.
     lapply Hloop; clear Hloop.
-    - intros Hloop. specialize (Hloop descs None). cbn [enc_dest] in Hloop.
-      destruct (fold_left (scan_desc idx) descs (AOk None)) as [r|].
-      + rewrite Hloop. reflexivity.
-      + destruct Hloop as (d & ->). exists "KeyError". reflexivity.
-    - intros d [svcs|]; cbv beta zeta.
+    - intros Hloop. specialize (Hloop descs PErr None). cbn [enc_dest] in Hloop.
+      destruct (fold_left (scan_desc z) descs (AOk None)) as [r|].
+      + destruct Hloop as (ix' & ->). reflexivity.
+      + destruct Hloop as (ix' & d & ->). exists "KeyError". reflexivity.
+    - intros ix d [svcs|]; cbv beta zeta.
       + change (p2_getitem (enc_desc (Some svcs)) (PStr "artifact_resolution_service")) with (PList (map enc_svc svcs)).
         rewrite p2_iter_check_list. rewrite py_bindS_good by reflexivity. cbn [py_iter2].
-        match goal with |- context [pyfor2 (map enc_svc svcs) [d] ?ibody] => rewrite (svc_loop idx ibody) end.
-        * destruct (assoc idx svcs); reflexivity.
-        * intros d' [i l]. cbv beta zeta.
+        match goal with |- context [pyfor2 (map enc_svc svcs) [ix; d] ?ibody] =>
+          destruct (svc_loop z ibody) with (svcs := svcs) (ix := ix) (d := d) as [ix' Hs] end.
+        * intros ix0 d' [i l]. cbv beta zeta.
           change (p2_getitem (enc_svc (i, l)) (PStr "index")) with (PStr i).
           change (p2_getitem (enc_svc (i, l)) (PStr "location")) with (PStr l).
-          rewrite p2_eq_str, p2_branch_bool. cbn [fst snd]. destruct (String.eqb i idx); reflexivity.
-      + reflexivity.
+          rewrite py_bindS_good by reflexivity. rewrite index_test. cbn [fst snd].
+          destruct (idx_matches z i); [rewrite py_bindS_good by reflexivity; reflexivity|reflexivity].
+        * rewrite Hs. exists ix'. destruct (find_svc z svcs); reflexivity.
+      + exists ix. reflexivity.
   Qed.
 End Artifact.
 
 Example artifact_hypotheses_satisfiable :
-  exists b64decode int_base,
+  exists b64decode int_base int_dec str_isascii str_isdigit,
     (forall s d, decode_str s = Some d -> b64decode (PStr s) = PStr d) /\
     (forall s, decode_str s = None -> exists n, b64decode (PStr s) = PExc n) /\
     (forall b, String.length b <= 2 ->
-       int_base (PStr b) (PInt 16) = match int16_z b with Some z => PInt z | None => PExc "ValueError" end).
+       int_base (PStr b) (PInt 16) = match int16_z b with Some z => PInt z | None => PExc "ValueError" end) /\
+    (forall s, str_isascii (PStr s) = PBool (Py2.all_ascii s)) /\
+    (forall s, Py2.all_ascii s = true ->
+       str_isdigit (PStr s) = PBool (match dec_value s with Some _ => true | None => false end)) /\
+    (forall s v, dec_value s = Some v -> int_dec (PStr s) = PInt (Z.of_nat v)).
 Proof.
   exists (fun v => match v with PStr s => match decode_str s with Some d => PStr d | None => PExc "Error" end | _ => PErr end),
-         (fun v _ => match v with PStr b => match int16_z b with Some z => PInt z | None => PExc "ValueError" end | _ => PErr end).
+         (fun v _ => match v with PStr b => match int16_z b with Some z => PInt z | None => PExc "ValueError" end | _ => PErr end),
+         (fun v => match v with PStr s => match dec_value s with Some n => PInt (Z.of_nat n) | None => PExc "ValueError" end | _ => PErr end),
+         (fun v => match v with PStr s => PBool (Py2.all_ascii s) | _ => PErr end),
+         (fun v => match v with PStr s => PBool (match dec_value s with Some _ => true | None => false end) | _ => PErr end).
   repeat split.
   - intros s d E. rewrite E. reflexivity.
   - intros s E. rewrite E. exists "Error". reflexivity.
+  - intros s v E. rewrite E. reflexivity.
 Qed.
 
 (* the restriction [art_ascii] is not vacuous: a well-formed artifact with an ASCII source id resolves *)
